@@ -61,6 +61,7 @@ func (eng *Engine) buildFuncVC(fn *ssa.Function, con *Contract, disabled map[str
 	}
 	// preconditions
 	if con != nil {
+		vc.loadContractGlobals(con)
 		env := vc.contractEnv(con, vc.params, nil, entry, entry)
 		for _, rq := range con.Requires {
 			t, err := env.trBool(rq.E)
@@ -338,6 +339,13 @@ func (eng *Engine) buildLemmaVC(lem *Contract) (vc *VC) {
 		env.oldVars[n] = env.vars[n]
 		vc.facts = append(vc.facts, vc.typeInv(t, lem.ParamTypes[i], entry))
 	}
+	wm0 := vc.heapGet(entry, "wm")
+	vc.facts = append(vc.facts, App(">=", SBool, wm0, IntLit64(0)))
+	vc.loadContractGlobals(lem)
+	if strings.HasPrefix(lem.Proof, "cases") {
+		vc.lemmaByCases(lem, env)
+		return vc
+	}
 	for _, rq := range lem.Requires {
 		t, err := env.trBool(rq.E)
 		if err != nil {
@@ -396,3 +404,105 @@ func (eng *Engine) buildLemmaVC(lem *Contract) (vc *VC) {
 }
 
 var _ = token.NoPos
+
+// loadContractGlobals asserts the dumped contents of the tables named by the contract's globals clause.
+func (vc *VC) loadContractGlobals(con *Contract) {
+	byPkg := map[string][]string{}
+	for _, g := range con.Globals {
+		pkgPath := con.PkgPath
+		name := g
+		if i := strings.Index(g, "."); i >= 0 {
+			q := g[:i]
+			name = g[i+1:]
+			found := false
+			for _, p := range vc.eng.ByName[q] {
+				pkgPath = p.PkgPath
+				found = true
+			}
+			if !found {
+				vc.specErrs = append(vc.specErrs, fmt.Sprintf("%s:%d: globals: unknown package %s", con.File, con.Line, q))
+				continue
+			}
+		}
+		byPkg[pkgPath] = append(byPkg[pkgPath], name)
+	}
+	for _, p := range sortedKeys(byPkg) {
+		if err := vc.loadGlobals(p, byPkg[p]); err != nil {
+			vc.specErrs = append(vc.specErrs, fmt.Sprintf("%s:%d: globals: %v", con.File, con.Line, err))
+		}
+	}
+}
+
+// lemmaByCases proves a lemma over finite integer ranges by enumerating the values ("proof cases i 0 31, j 0 31"):
+// every instance is a ground obligation (constants fold in the translator, the rest is decided by the solver).
+func (vc *VC) lemmaByCases(lem *Contract, env *SEnv) {
+	type rng struct {
+		name   string
+		lo, hi int64
+	}
+	var rs []rng
+	for _, part := range strings.Split(strings.TrimPrefix(lem.Proof, "cases"), ",") {
+		f := strings.Fields(part)
+		if len(f) != 3 {
+			vc.specErrs = append(vc.specErrs, fmt.Sprintf("%s:%d: proof cases needs 'name lo hi'", lem.File, lem.Line))
+			return
+		}
+		var r rng
+		r.name = f[0]
+		fmt.Sscanf(f[1], "%d", &r.lo)
+		fmt.Sscanf(f[2], "%d", &r.hi)
+		rs = append(rs, r)
+	}
+	vals := make([]int64, len(rs))
+	var rec func(k int)
+	count := 0
+	rec = func(k int) {
+		if k == len(rs) {
+			ce := env.child()
+			ce.proving = true
+			var label []string
+			for i, r := range rs {
+				ce.vars[r.name] = &SVal{CI: big.NewInt(vals[i])}
+				label = append(label, fmt.Sprintf("%s=%d", r.name, vals[i]))
+			}
+			var pre []*Term
+			for _, rq := range lem.Requires {
+				t, err := ce.trBool(rq.E)
+				if err != nil {
+					vc.specError(lem, rq, err)
+					return
+				}
+				pre = append(pre, t)
+			}
+			p := And(pre...)
+			if p.IsFalse() {
+				return
+			}
+			for i, en := range lem.Ensures {
+				t, err := ce.trBool(en.E)
+				if err != nil {
+					vc.specError(lem, en, err)
+					return
+				}
+				vc.flushUnfold()
+				count++
+				cond := Implies(p, t)
+				if cond.IsTrue() {
+					vc.foldedCases++
+					continue
+				}
+				vc.obls = append(vc.obls, &Obl{Name: fmt.Sprintf("%s#lemma.%d[%s]", vc.funcName(), i, strings.Join(label, ",")), Kind: "lemma", Guard: TTrue, Cond: cond,
+					NFacts: len(vc.facts), Desc: fmt.Sprintf("lemma case %s (%s:%d): %s", strings.Join(label, ","), en.File, en.Line, en.Src)})
+			}
+			return
+		}
+		for v := rs[k].lo; v <= rs[k].hi; v++ {
+			vals[k] = v
+			rec(k + 1)
+		}
+	}
+	rec(0)
+	if count == 0 {
+		vc.specErrs = append(vc.specErrs, fmt.Sprintf("%s:%d: proof by cases generated no instance", lem.File, lem.Line))
+	}
+}
